@@ -1753,6 +1753,40 @@ def count_centroid_relation(out: Outcome, R, C, mirrored, rotated):
         out.count("centroids:generic")
 
 
+# The caller's arrays.  Half of the kabsch_align / B787 calls hand the implementation the SAME two ndarray objects per
+# (route, atom count) again and again, overwritten in place with the new geometries (a frame loop over a reused buffer), the other
+# half fresh copies.  The answer must be a function of the VALUES: anything remembered by object identity across calls shows as an
+# ordinary oracle finding on the later call.  The finding carries the previous contents of the buffers (`prev_RC`) so that a replay
+# in a fresh process first repeats that call.
+_BUFS = {}
+_PREV = {}
+
+
+def caller_arrays(case, R, C, prime):
+    route, n = case["route"], len(R)
+    if "reuse" not in case:
+        case["reuse"] = (int(case.get("seed", 0)) // 7) % 2 == 0
+    if not case["reuse"] or len(C) != n:
+        return R.copy(), C.copy()
+    key = (route, n)
+    if key not in _BUFS:
+        _BUFS[key] = (np.zeros((n, 3)), np.zeros((n, 3)))
+    bR, bC = _BUFS[key]
+    if key in _PREV:
+        case["prev_RC"] = _PREV[key]
+    elif case.get("prev_RC"):
+        bR[:] = unhex(case["prev_RC"][0])
+        bC[:] = unhex(case["prev_RC"][1])
+        try:
+            prime(bR, bC)
+        except Exception:  # noqa
+            pass
+    bR[:] = R
+    bC[:] = C
+    _PREV[key] = (case["R"], case["C"])
+    return bR, bC
+
+
 def evaluate(case, out: Outcome, pend):
     _install()
     route = case["route"]
@@ -1796,9 +1830,11 @@ def evaluate(case, out: Outcome, pend):
         count_centroid_relation(out, R, C, case["mirrored"], rotated=("quat" not in case) or any(case["quat"][1:]) or "rotfloat" in case)
 
     if route == "kabsch":
+        aR, aC = caller_arrays(case, R, C, lambda x, y: _A.kabsch_align(x, y))
+        out.count("caller arrays:" + ("reused buffers" if case["reuse"] else "fresh copies"))
         with recording() as rec:
             try:
-                rm0, RR, TT = _A.kabsch_align(R.copy(), C.copy())
+                rm0, RR, TT = _A.kabsch_align(aR, aC)
             except Exception as e:  # noqa
                 out.violations.append(Finding("oracle:raised", case_id, observed=err_class(e) + ": " + str(e)[:200], detail="kabsch_align raised on an in-scope input"))
                 return
@@ -1830,9 +1866,11 @@ def evaluate(case, out: Outcome, pend):
             if k in ("atoms_map", "run_resorting", "run_to_completion", "run_mirror") and v:
                 out.count("flag:" + k)
         out.count("flag:mols_align=" + str(kwargs["mols_align"]))
+        aR, aC = caller_arrays(case, R, C, lambda x, y: _A.B787(y, x, cuniq.copy(), runiq.copy(), **kwargs))
+        out.count("caller arrays:" + ("reused buffers" if case["reuse"] else "fresh copies"))
         with recording() as rec:
             try:
-                rmsd, sol = _A.B787(C.copy(), R.copy(), cuniq.copy(), runiq.copy(), **kwargs)
+                rmsd, sol = _A.B787(aC, aR, cuniq.copy(), runiq.copy(), **kwargs)
             except AssertionError as e:
                 tr = find_truncation(rec.calls)
                 if tr:
